@@ -189,4 +189,44 @@ theorem knapBestRev_attained (ritems : List (Rat × Rat)) : ∀ (c b : Rat), kna
         · simp only [List.reverse_cons]
           rw [selV_cons, selV_append_lt _ _ _ hr'', ← hlen, getD_append_len]; grind
 
+/-! ### the greedy fallback scan -/
+
+theorem greedyScan_spec (items : List (Rat × Rat)) : ∀ (order : List Nat) (rem : Rat) (acc : List Nat), 0 ≤ rem →
+    ∃ picked, greedyScan ratOps items order rem acc = acc.reverse ++ picked ∧ picked.Sublist order ∧
+      (∀ i ∈ picked, i < items.length) ∧ selW items picked ≤ rem := by
+  intro order
+  induction order with
+  | nil => intro rem acc h; exact ⟨[], by simp [greedyScan], List.Sublist.refl _, by simp, by simpa [selW] using h⟩
+  | cons i rest ih =>
+    intro rem acc h
+    unfold greedyScan
+    cases hi : items[i]? with
+    | none =>
+      obtain ⟨p, h1, h2, h3, h4⟩ := ih rem acc h
+      exact ⟨p, h1, h2.cons _, h3, h4⟩
+    | some x =>
+      obtain ⟨w, v⟩ := x
+      simp only
+      by_cases hw : w ≤ rem
+      · have hle : ratOps.le w rem = true := decide_eq_true hw
+        simp only [hle, if_true]
+        obtain ⟨p, h1, h2, h3, h4⟩ := ih (rem - w) (i :: acc) (by grind)
+        have hsub : ratOps.sub rem w = rem - w := rfl
+        have hil : i < items.length := by
+          rcases Nat.lt_or_ge i items.length with h | h
+          · exact h
+          · simp [List.getElem?_eq_none h] at hi
+        refine ⟨i :: p, by rw [hsub, h1]; simp, h2.cons_cons _, ?_, ?_⟩
+        · intro j hj
+          rcases List.mem_cons.1 hj with rfl | hj
+          · exact hil
+          · exact h3 j hj
+        · rw [selW_cons]
+          have : items.getD i (0, 0) = (w, v) := by simp [List.getD_eq_getElem?_getD, hi]
+          rw [this]; grind
+      · have hle : ratOps.le w rem = false := decide_eq_false hw
+        simp only [hle, Bool.false_eq_true, if_false]
+        obtain ⟨p, h1, h2, h3, h4⟩ := ih rem acc h
+        exact ⟨p, h1, h2.cons _, h3, h4⟩
+
 end Solvor.Pack
